@@ -155,6 +155,13 @@ func (e *env) get(name string) *zap.Logger {
 			col("L", func(a zapcore.ArrayEncoder) { a.AppendString(lv.String()) })(enc)
 		}
 		l = zap.New(zapcore.NewCore(zapcore.NewConsoleEncoder(cfg), e.sink("Ca"), zap.DebugLevel), opts...)
+	case "Cw": // console logger with more columns than the stock callbacks give: date and clock time are two columns
+		cfg := consCfg()
+		cfg.EncodeTime = func(t time.Time, enc zapcore.PrimitiveArrayEncoder) {
+			enc.AppendString(t.UTC().Format("2006-01-02"))
+			enc.AppendString(t.UTC().Format("15:04:05"))
+		}
+		l = zap.New(zapcore.NewCore(zapcore.NewConsoleEncoder(cfg), e.sink("Cw"), zap.DebugLevel), append(append([]zap.Option{}, opts...), zap.AddCaller())...)
 	case "Cr": // console logger with its own reflection encoder (EncoderConfig.NewReflectedEncoder)
 		cfg := consCfg()
 		cfg.NewReflectedEncoder = func(w io.Writer) zapcore.ReflectedEncoder { return tagEnc{w, "console-owned:"} }
@@ -353,6 +360,9 @@ var ops = []op{
 	}},
 	{"carr", "console logger whose time and level columns are arrays built by the column callbacks (two structured columns in one line)", func(e *env) {
 		e.get("Ca").Warn("m-carr", zap.Int("a", 1))
+	}},
+	{"cwide", "console line of seven metadata columns (a time callback appending two elements, level, name, caller, function)", func(e *env) {
+		e.get("Cw").Named("wide").Error("m-cwide", zap.Int("a", 1))
 	}},
 	{"reent", "JSON: a marshaler that logs through two other loggers (JSON and console, reflected values) while it is being encoded", func(e *env) {
 		e.get("J").Info("m-reent", zap.Reflect("r0", pair{1, "o"}), zap.Object("o", reentObj{e}), zap.Reflect("rj", reentJSON{e}), zap.Reflect("r1", pair{2, "o"}))
